@@ -1089,6 +1089,12 @@ func baseKey(v ssa.Value) string {
 					v = a
 					continue
 				}
+				if fv, ok := x.X.(*ssa.FreeVar); ok {
+					// a captured variable: every load reads the same cell
+					path = append(path, "*")
+					v = fv
+					continue
+				}
 			}
 		}
 		break
